@@ -1219,9 +1219,16 @@ void mmd_parse_token_chain(mmd_engine * e, token * chain) {
 	Parse(pParser, 0, NULL, e);
 
 	// Disconnect of (now empty) root
+	size_t chain_len = chain->len;
 	chain->child = NULL;
 	token_append_child(chain, e->root);
 	e->root = NULL;
+
+	if (chain->type == DOC_START_TOKEN && chain->len < chain_len) {
+		// The document spans everything that was tokenized, even when the
+		// last block gave up trailing whitespace-only lines
+		chain->len = chain_len;
+	}
 
 	ParseFree(pParser, free);
 
